@@ -383,6 +383,9 @@ func cmdCheck(args []string) {
 		if v, err := strconv.Atoi(os.Getenv("VP_MAXWALL_S")); err == nil && v > 0 {
 			ex.maxWall = time.Duration(v) * time.Second // calibration runs
 		}
+		if v, err := strconv.Atoi(os.Getenv("VP_MAXSAMPLES")); err == nil && v > 0 {
+			ex.maxSamples = v // validation sweeps: replay (up to) every completed path natively
+		}
 		st := ex.Run()
 		results = append(results, hres{hs, st})
 		fmt.Printf("  %-28s paths=%d %v decisions=%d queries(sat/unsat/unk)=%d/%d/%d solver=%.1fs wall=%.1fs\n",
@@ -500,7 +503,7 @@ func cmdCheck(args []string) {
 					mismatches++
 					lines = append(lines, fmt.Sprintf("ENGINE-MISMATCH %s %s: native outcome %s %s %s (engine: ok) replay=%s", v.Kind, v.Harness, r.Outcome, r.Label, firstLine(r.Msg), pth))
 				}
-				if v.Kind != "selfcheck" || r.Outcome == "pass" {
+				if r.Outcome == "pass" {
 					os.Remove(pth)
 				}
 			default:
